@@ -1244,4 +1244,39 @@ theorem start_run (p : Prog) (hwf : progWf p = true) (ts : List Bool) (hc : Comp
   rw [h0, h1, posOf_self] at this
   exact this
 
+/-! ### READ targets -/
+
+/-- the store-threading loop agrees with `readVars` on a run without error: its result is the left-to-right
+    fold of `assign` over the values delivered -/
+theorem readAssign_of_readVars (code : Bytes) (conv : Bytes → Nat) (tgs : List (Bool × Target)) :
+    ∀ (pos : Nat) (st : Store) (vals : List Val) (pos' : Nat),
+    readVars true code pos (tgs.map (·.1)) = ⟨vals, none, pos'⟩ →
+    readAssign true code conv pos st tgs =
+      ((List.zip (tgs.map (·.2)) vals).foldl (fun s x => assign conv s x.1 x.2) st, none, pos') := by
+  induction tgs with
+  | nil =>
+    intro pos st vals pos' h
+    simp only [List.map_nil, readVars, ReadOut.mk.injEq] at h
+    obtain ⟨rfl, -, rfl⟩ := h
+    simp [readAssign]
+  | cons x rest ih =>
+    obtain ⟨t, tg⟩ := x
+    intro pos st vals pos' h
+    simp only [List.map_cons, readVars] at h
+    simp only [readAssign]
+    cases he : readEntry true code pos t with
+    | ok v p =>
+      rw [he] at h
+      simp only [ReadOut.mk.injEq] at h
+      obtain ⟨hv, herr, hp⟩ := h
+      have := ih p (assign conv st tg v) (readVars true code p (rest.map (·.1))).vals pos' (by
+        cases hr : readVars true code p (rest.map (·.1)) with
+        | mk a b c => rw [hr] at herr hp; simp only at herr hp; subst herr hp; rfl)
+      simp only []
+      rw [this, ← hv]
+      simp
+    | err e a ep =>
+      rw [he] at h
+      simp at h
+
 end PcbV.DataRead
